@@ -31,7 +31,7 @@ def customOwnParseLiteralTakesAnyLiteral : Bool := true
 def defaultScalarParseRejectsNonFinite : Bool := true
 
 /-- `default_scalar`'s `parse_literal` hands the variables on to `_untyped_literal`, which has a `Variable` branch (fix C06-H7) -/
-def standInLiteralSeesVariables : Bool := false
+def standInLiteralSeesVariables : Bool := true
 
 /-- literal kinds admitted by each specified scalar's `parse_literal` (`_typed_coerce(f, *node classes)`) -/
 def literalKinds : List (String × List String) := [
